@@ -9,6 +9,8 @@ mod fam_stack;
 mod fam_wsel;
 mod mutants;
 mod selcommon;
+mod fam_xo;
+mod fam_mut;
 mod prims;
 mod report;
 mod rng;
@@ -55,6 +57,11 @@ fn main() {
         "builder-probes" => fam_builder::run_probes(&cfg),
         "wsel" => fam_wsel::run(&cfg),
         "lex" => fam_lex::run(&cfg),
+        "xo" => fam_xo::run(&cfg),
+        "xo-selftest" => fam_xo::selftest(&cfg),
+        "mut" => fam_mut::run(&cfg),
+        "rates" => fam_mut::run_rates(&cfg),
+        "mut-selftest" => fam_mut::selftest(&cfg),
         f => { eprintln!("unknown family {f}"); std::process::exit(2) }
     };
     let js = serde_json::to_string_pretty(&rep.to_json()).unwrap();
